@@ -254,6 +254,12 @@ func bigLattice(work *choice.Source, shape *simsolid.Shape, v *variant, lo, hi i
 		ext = math.Max(ext, b[i]-a[i])
 	}
 	shape.Delta = ext / float64(n)
+	if shape.Dim == 3 && work.Chance(1, 3) {
+		// a plate: the big extent stays, one axis (mostly z, the slab axis of the
+		// marching-cubes cache) shrinks to 1..7 cells - fewer slabs than workers
+		axis := []int{2, 2, 2, 0, 1}[work.Intn(5)]
+		shape.Flatten(axis, shape.Delta*(0.7+6*work.Float()))
+	}
 	v.Knobs = map[string]int{"cm.itemStride": 257, "auto.stride": 257}
 	v.YieldEvery = 0
 	return true
@@ -261,7 +267,7 @@ func bigLattice(work *choice.Source, shape *simsolid.Shape, v *variant, lo, hi i
 
 // ---------------------------------------------------------------- algorithms
 
-func runMC(r *runner, work *choice.Source, search bool) (fs []Finding) {
+func runMC(r *runner, work *choice.Source, search, forceFlat bool) (fs []Finding) {
 	shape := simsolid.Gen(work, 3)
 	iters := 0
 	if search {
@@ -272,7 +278,21 @@ func runMC(r *runner, work *choice.Source, search bool) (fs []Finding) {
 	extra := uint64(pick(work, 0, 2, 5))
 	bigK := 2 + work.Intn(5)
 	salt := work.U64()
-	big := bigLattice(work, shape, &v, 64, 112, false)
+	big := bigLattice(work, shape, &v, 64, 112, forceFlat)
+	if forceFlat {
+		// the dedicated plate kind: a wide slab that is only a few lattice layers
+		// thick in z, meshed by the plain (z-slab pipelined) path with many workers -
+		// fewer slabs than workers
+		lo, hi := shape.Bounds()
+		if hi[2]-lo[2] > 6*shape.Delta {
+			shape.Flatten(2, shape.Delta*(0.7+4*work.Float()))
+		}
+		v.Workers = 6 + work.Intn(11)
+		if work.Chance(3, 4) {
+			kind = 0
+		}
+		r.st.probe("mc.flat_plate")
+	}
 	if big {
 		r.refKnobs = map[string]int{"cm.itemStride": 257, "auto.stride": 257}
 		r.st.probe("mc.big_lattice")
@@ -600,7 +620,12 @@ func runRaster(r *runner, work *choice.Source) (fs []Finding) {
 		// a canvas that crops or pads the solid
 		lo, hi := shape.Bounds()
 		pad := func() float64 { return (work.Float() - 0.6) * 0.5 }
-		ras.Bounds = model2d.NewRect(model2d.XY(lo[0]-pad(), lo[1]-pad()), model2d.XY(hi[0]+pad(), hi[1]+pad()))
+		b0, b1 := model2d.XY(lo[0]-pad(), lo[1]-pad()), model2d.XY(hi[0]+pad(), hi[1]+pad())
+		// (a canvas must have a positive extent; cropping a small shape from both
+		// sides can invert it, which is an invalid argument, not a configuration)
+		if b1.X-b0.X >= 0.1 && b1.Y-b0.Y >= 0.1 {
+			ras.Bounds = model2d.NewRect(b0, b1)
+		}
 	}
 	// only for the solid paths: an even-odd collider test at points exactly in line
 	// with mesh vertices is outside "general position" (C07), not a filter effect
@@ -680,7 +705,7 @@ func runRaster(r *runner, work *choice.Source) (fs []Finding) {
 
 var Algos = []string{"mc", "mcsearch", "dc", "ms", "raster", "mc", "dc", "dcrepair",
 	"mc", "mcsearch", "dc", "ms", "raster", "mc", "dc", "dcrepair",
-	"mc", "mcsearch", "dc", "ms", "raster", "mc", "dc", "dcbig"}
+	"mc", "mcsearch", "dc", "ms", "raster", "mcflat", "dc", "dcbig"}
 
 func RunCase(t *testing.T, c *Case, work, sched *choice.Source, st *Stats) (fs []Finding) {
 	r := &runner{t: t, st: st, sched: sched}
@@ -690,9 +715,11 @@ func RunCase(t *testing.T, c *Case, work, sched *choice.Source, st *Stats) (fs [
 	}()
 	switch c.Algo {
 	case "mc":
-		return runMC(r, work, false)
+		return runMC(r, work, false, false)
+	case "mcflat":
+		return runMC(r, work, false, true)
 	case "mcsearch":
-		return runMC(r, work, true)
+		return runMC(r, work, true, false)
 	case "dc":
 		return runDC(r, work, false, false)
 	case "dcbig":
